@@ -41,9 +41,43 @@ def real_part(tier):
             viols.append(dict(signature=sig, msg=msg, plan=o["plan"], hooks=o["hooks"]))
     return dict(count=len(out), fired=fired,
                 classes=sorted({repr(o["cls"]) for o in out}),
-                labels=[o["plan"]["label"] for o in out]), viols
+                labels=[o["plan"]["label"] for o in out],
+                _real=[(o["plan"]["label"], o["cls"]) for o in out
+                       if o["fired"] and o["cls"] and o["plan"]["label"] not in ("rq.partial", "double-death")]), viols
+
+
+def sim_classes(total):
+    """Outcome classes (per-future kind for a,b,c / broken type) that engine S produced for the
+    kill-mix programs, to compare the real fault runs with (every behaviour observed on the
+    implementation should be a behaviour of the model)."""
+    out = set()
+    for cls in total.classes:
+        try:
+            verdict, futs, broken = cls[0], cls[1], cls[2]
+        except Exception:
+            continue
+        keys = {k: (kind, exc) for (k, kind, exc) in futs}
+        if not all(k in keys for k in ("a", "b", "c")) or verdict != "completed":
+            continue
+        kinds = tuple("bpp" if keys[k][0] == "exc" and keys[k][1] in ("TerminatedWorkerError",
+                                                                        "BrokenProcessPool")
+                      else keys[k][0] for k in ("a", "b", "c"))
+        out.add((kinds, broken[-1] if broken else None))
+    return out
 
 
 def main(tier):
     conf, viols = real_part(tier)
-    return simcheck.run("C02", tier, plan(tier), ORACLE, conformance=conf, extra_violations=viols)
+    real = conf.pop("_real")
+
+    def post(total):
+        sc = sim_classes(total)
+        matched, unmatched = [], []
+        for label, cls in real:
+            key = (tuple(cls[0]), cls[1])
+            (matched if key in sc else unmatched).append([label, repr(key)])
+        return dict(real_outcomes_in_simulated_set=len(matched),
+                    real_outcomes_not_in_simulated_set=unmatched,
+                    simulated_outcome_classes=len(sc))
+    return simcheck.run("C02", tier, plan(tier), ORACLE, conformance=conf, extra_violations=viols,
+                        post_summary=post)
